@@ -2,6 +2,8 @@ package checks
 
 import (
 	"fmt"
+	"github.com/opsidian/parsley/combinator"
+	"github.com/opsidian/parsley/parser"
 	"math/rand"
 	"sort"
 
@@ -58,7 +60,20 @@ func (c GCase) Describe() map[string]any {
 //	mutual   : Seed, N mutual-left-recursion-biased grammars x P[inputs] inputs sampled from the grammar
 //	enum     : every body with P[nodes] nodes, shapes [Lo,Hi), x every input over {a,b} up to P[maxlen]; P[ext]=1 adds Choice/Many/SeqTry
 //	corpus   : the seed corpus
+//
+// burnParserIndices: Memoize takes its cache key from a process-wide counter. A long-running process (a service that
+// builds a grammar per request) reaches indices no short test run ever sees: jobs with P["burn"] construct that many
+// throw-away memoized parsers first, so that their grammars are built late in the life of the process.
+func burnParserIndices(n int) {
+	for i := 0; i < n; i++ {
+		combinator.Memoize(parser.Empty())
+	}
+}
+
 func gramCases(j run.Job, yield func(c GCase)) {
+	if n := j.Param("burn", 0); n > 0 {
+		burnParserIndices(n)
+	}
 	switch j.Family {
 	case "random":
 		r := rand.New(rand.NewSource(j.Seed))
